@@ -74,6 +74,12 @@ def check_update(chk, prog, sim):
         if not A.equal(gv, v + a * t):
             chk.violation("C14.K", key + ":velocity", "State::update velocity = %s, expected v + a*dt" % A.show(gv), fn=fn["pretty"], file=loc(fn["span"]))
             ok = False
+        import numkit as _N
+        lossy = _N.lossy_ops(post)
+        if lossy:
+            chk.violation("C14.K", key + ":lossy", "State::update's value graph contains a truncating integer operation %r: the time step is divided/truncated as an integer before the conversion to seconds" % (lossy[0],),
+                          fn=fn["pretty"], file=loc(fn["span"]))
+            ok = False
         if vals["acceleration"] != Sym("s.acceleration"):
             chk.violation("C14.K", key + ":acceleration", "State::update writes the acceleration: %r" % (vals["acceleration"],), fn=fn["pretty"], file=loc(fn["span"]))
             ok = False
